@@ -2,7 +2,7 @@
 From Coq Require Import List ZArith NArith Bool.
 Import ListNotations.
 From GS Require Import Num EventLoop Kernel Sim.
-From GS.Proofs Require Import Aux SimP SimP3.
+From GS.Proofs Require Import Aux SimP SimP3 SimP5.
 
 Section C13.
 Context {F : Type} (A : ArithOps F) {PS : Type} (cfg : scfg F)
@@ -55,6 +55,22 @@ Theorem C13_movement_is_per_node (h h2 : sstate F PS) n :
   nth n (s_speed h) (f0 A) = nth n (s_speed h2) (f0 A) -> new_pos A cfg h n = new_pos A cfg h2 n.
 Proof. intros H1 H2 H3. unfold new_pos. rewrite H1, H2, H3. reflexivity. Qed.
 
+(** Non-interference, one event at a time.  Let node [x] be silent (its protocol, whatever it is
+    told, only issues node-scoped requests).  Every event that concerns [x] alone — one of its
+    timers, a delivery to it, its telemetry — when executed (i) leaves everything any other node
+    can observe of the handlers equal: their pending timers, targets, speeds, ranges, flags,
+    protocol states, all positions, the oracle cursor; (ii) schedules only events that again
+    concern [x] alone; (iii) calls back nobody but [x].  Together with C03 (events run in
+    (time, request order), so events of [x] never reorder the others' events) this is why the
+    other nodes' callbacks are the same with and without [x]'s requests; that composition over
+    whole runs is exercised by paired runs rather than mechanised. *)
+Theorem C13_silent_node_events_invisible (x : nat) (h : sstate F PS) now p :
+  silent react x -> owned x p = true ->
+  same_for_others x h (fst (fst (sim_exec A cfg react h now p))) /\
+  (forall ts q, In (ts, q) (snd (fst (sim_exec A cfg react h now p))) -> owned x q = true) /\
+  (forall it, In it (snd (sim_exec A cfg react h now p)) -> exists t c', it = TCb x t c' \/ exists a o, it = TAct x a o).
+Proof. apply owned_event_is_invisible. Qed.
+
 End C13.
 
 Print Assumptions C13_identities.
@@ -62,3 +78,4 @@ Print Assumptions C13_callback_owner.
 Print Assumptions C13_node_scoped_frame.
 Print Assumptions C13_timer_event_owner.
 Print Assumptions C13_movement_is_per_node.
+Print Assumptions C13_silent_node_events_invisible.
